@@ -54,9 +54,14 @@ pub fn idiv(left: &BigInt, right: &BigInt, field: &BigInt) -> Result<BigInt, Ari
     }
 }
 pub fn mod_op(left: &BigInt, right: &BigInt, field: &BigInt) -> Result<BigInt, ArithmeticError> {
+    let zero = BigInt::from(0);
     let left = modulus(left, field);
     let right = modulus(right, field);
-    Ok(modulus(&left, &right))
+    if right == zero {
+        Err(ArithmeticError::DivisionByZero)
+    } else {
+        Ok(modulus(&left, &right))
+    }
 }
 pub fn pow(base: &BigInt, exp: &BigInt, field: &BigInt) -> BigInt {
     base.modpow(exp, field)
@@ -71,6 +76,8 @@ pub fn prefix_sub(elem: &BigInt, field: &BigInt) -> BigInt {
 // 256 bit complement
 pub fn complement_256(elem: &BigInt, field: &BigInt) -> BigInt {
     let (sign, mut bit_repr) = bit_representation(elem);
+    // Zero has no sign, but its complement is positive.
+    let sign = if sign == Sign::NoSign { Sign::Plus } else { sign };
     while bit_repr.len() > 256 {
         bit_repr.pop();
     }
@@ -88,6 +95,11 @@ pub fn shift_l(left: &BigInt, right: &BigInt, field: &BigInt) -> Result<BigInt, 
     let two = BigInt::from(2);
     let top = field / &two;
     if right <= &top {
+        if right >= &BigInt::from(field.bits()) {
+            // All bits of the result are masked out. (Avoids computing an
+            // astronomically large power of two.)
+            return Ok(BigInt::from(0));
+        }
         let usize_repr = right.to_usize().ok_or(ArithmeticError::DivisionByZero)?;
         let value = modulus(&((left * &num_traits::pow(two, usize_repr)) & &mask(field)), field);
         Ok(value)
@@ -99,6 +111,11 @@ pub fn shift_r(left: &BigInt, right: &BigInt, field: &BigInt) -> Result<BigInt, 
     let two = BigInt::from(2);
     let top = field / &two;
     if right <= &top {
+        if right >= &BigInt::from(left.bits()) {
+            // All bits of the left operand are shifted out. (Avoids computing
+            // an astronomically large power of two.)
+            return Ok(BigInt::from(0));
+        }
         let usize_repr = right.to_usize().ok_or(ArithmeticError::DivisionByZero)?;
         let value = left / &num_traits::pow(two, usize_repr);
         Ok(value)
